@@ -18,8 +18,17 @@ CUT_ASSUMPTION = ('content cuts for protocol-only checks: tree.BuildTree -> empt
 def run(ctx, pid, configs, explanation, bounds, assumptions=None, harness='v2'):
     """configs: list of (name, cfg, queries, contract prefixes)"""
     quick = ctx.tier == 'quick'
+    import time
+    budget = float(os.environ.get('VERIF_QUICK_BUDGET_S', '620'))
     for entry in configs:
         name, cfg, queries, contracts = entry[:4]
+        if quick and bounds.get('transition_relations') and time.time() - ctx.t0 > budget:
+            # the quick tier is meant to run on every change: on a slow / loaded machine the later (additional) configurations
+            # are left to the thorough tier instead of running into the time limit; recorded, never silent
+            ctx.notes.append('SKIPPED configuration %s: quick-tier time budget (%.0f s) used up after %.0f s' % (name, budget, time.time() - ctx.t0))
+            driver.log('  SKIPPED configuration %s (quick-tier time budget)' % name)
+            bounds.setdefault('skipped_configurations', []).append(name)
+            continue
         o = entry[4] if len(entry) > 4 else {}
         res, t = ts.run_protocol(ctx, driver, name, cfg, queries, contracts=contracts, timeout_s=900 if quick else 3300,
                                  confirm_depth=o.get('confirm_depth', 24 if quick else 40), cuts=o.get('cuts', True))
